@@ -90,6 +90,9 @@ func (fc *fnCtx) calleeSpec(st *State, fr *frame, call ssa.CallInstruction) (spe
 		resT = append(resT, sig.Results().At(i).Type())
 	}
 	spec = fc.lookupSpec(call)
+	if spec != nil {
+		fc.e.usedSpecs[spec.key] = true
+	}
 	if c.IsInvoke() {
 		r := fc.val(st, c.Value)
 		recv = &r
